@@ -92,6 +92,8 @@ try:
     _, iam = fn_body(repo, F, "is_active_manager")
     print("def isActiveManagerBody : String := " + lean_str(norm(iam)))
 
+    print("/-- `state::merge`: the three sequential `if`s (the state an operation is judged on is a merge of its dependencies' states) -/")
+    print(merge_member_def(repo)[1])
     # ---- validate / apply_action: order of the rejections ------------------------------------------------
     _, val = fn_body(repo, M, "validate")
     vs = []
